@@ -13,6 +13,10 @@ sed -i "s#/repo/rsass#$wt/rsass#" $root/harness/Cargo.toml
 cd $root/harness || exit 2
 export CARGO_TARGET_DIR=/tmp/vseed-target CARGO_NET_OFFLINE=true
 if ! cargo build --release --offline > $out/iso-build.log 2>&1; then echo "build failed (see $out/iso-build.log)"; tail -5 $out/iso-build.log; exit 2; fi
+if [ "$id" = "C40" ]; then
+  # the command-line tool is built from the worktree as well
+  cargo build --release --offline --manifest-path $wt/rsass-cli/Cargo.toml --target-dir $root/harness/target/cli >> $out/iso-build.log 2>&1 || { echo "cli build failed"; exit 2; }
+fi
 VERIF_ROOT=$root /tmp/vseed-target/release/vcheck $id $tier > $out/check-$id-$tier.log 2>&1; code=$?
 grep -E "^(VIOLATION|why:|C[0-9]+ (quick|thorough):|inconclusive)" $out/check-$id-$tier.log | cut -c1-500
 echo "exit=$code"
